@@ -235,6 +235,20 @@ def h_self_closing_pairs(n):
     return h
 
 
+def h_self_closing_with_output(n):
+    """an established connection whose socket takes nothing has an answer waiting to be written when bytes arrive that
+    cannot be a Diameter header: it closes itself with unsent output, N times"""
+    h = Hist(cfg2())
+    for _ in range(n):
+        cid = h.established()
+        h.do(dict(ev="stall", cid=cid, on=True))
+        h.recv(cid, dict(kind="dwr", host="cli0.example.net"))
+        h.r.remotes[cid].feed(bytes(40))
+        h.r.sim.run()
+        h.r.sim.advance(1)
+    return h
+
+
 def h_outbound_late_raising(n):
     """like h_outbound_late, but the application's unexpected-answer handler raises"""
     h = h_outbound_late.__wrapped__(n, raising=True) if hasattr(h_outbound_late, "__wrapped__") else _outbound_late(n, True)
@@ -474,10 +488,85 @@ def h_stopping(n):
     return h
 
 
+def h_conn_with_transaction(n):
+    """n connections of the same peer, each carrying one request/answer, each closed by the peer"""
+    h = Hist(cfg2())
+    g = nodegen.Gen(random.Random(0), h.cfg, {})
+    for _ in range(n):
+        cid = h.established()
+        o, spec = h.recv(cid, dict(kind="req", host="cli0.example.net"))
+        wire = h.events[-1]["frames"][0]
+        for (app, _hh, _ee) in o["delivered"]:
+            h.do(dict(ev="app_answer", app=app, msg=g.make_answer(wire)))
+        h.do(dict(ev="close", cid=cid))
+    return h
+
+
+def h_inbound_rejected_by_app(n):
+    """requests the application turns down: answer 3004 with the E bit"""
+    h = Hist(cfg2())
+    cid = h.established()
+    g = nodegen.Gen(random.Random(0), h.cfg, {})
+    for _ in range(n):
+        o, spec = h.recv(cid, dict(kind="req", host="cli0.example.net"))
+        wire = h.events[-1]["frames"][0]
+        for (app, _hh, _ee) in o["delivered"]:
+            a = g.make_answer(wire)
+            a.result_code = 3004
+            a.header.is_error = True
+            h.do(dict(ev="app_answer", app=app, msg=a))
+    return h
+
+
+def h_answer_after_dpr(n):
+    """n requests are delivered, then the peer asks to disconnect; the application's answers come afterwards and can no
+    longer be routed.  Whatever was recorded for the requests has to go."""
+    h = Hist(cfg2())
+    cid = h.established()
+    g = nodegen.Gen(random.Random(0), h.cfg, {})
+    pend = []
+    for _ in range(n):
+        o, spec = h.recv(cid, dict(kind="req", host="cli0.example.net"))
+        wire = h.events[-1]["frames"][0]
+        pend += [(app, wire) for (app, _hh, _ee) in o["delivered"]]
+    h.recv(cid, dict(kind="dpr", host="cli0.example.net"))
+    for app, wire in pend:
+        h.do(dict(ev="app_answer", app=app, msg=g.make_answer(wire)))
+    return h
+
+
+def h_repeated_cer(n):
+    """a peer that repeats its CER on the established connection n times (each is ignored)"""
+    h = Hist(cfg2())
+    cid = h.established()
+    for _ in range(n):
+        h.recv(cid, dict(kind="cer", host="cli0.example.net"))
+    return h
+
+
+def h_inbound_experimental(n):
+    """inbound transactions whose answers carry an Experimental-Result instead of a Result-Code"""
+    h = Hist(cfg2())
+    cid = h.established()
+    g = nodegen.Gen(random.Random(0), h.cfg, {})
+    for _ in range(n):
+        o, spec = h.recv(cid, dict(kind="req", host="cli0.example.net"))
+        wire = h.events[-1]["frames"][0]
+        for (app, _hh, _ee) in o["delivered"]:
+            h.do(dict(ev="app_answer", app=app, msg=g.make_answer(wire, experimental=True)))
+    return h
+
+
 KINDS = [("inbound request/answer", h_inbound, True), ("outbound request/answer", h_outbound, True),
+         ("inbound request answered with an Experimental-Result only", h_inbound_experimental, True),
+         ("answers submitted after the requester's DPR", h_answer_after_dpr, True),
+         ("connections that each carry one transaction", h_conn_with_transaction, True),
+         ("requests the application rejects with the E bit", h_inbound_rejected_by_app, True),
+         ("CER repeated on the established connection", h_repeated_cer, True),
          ("rejected retransmissions", h_retransmissions, True), ("outbound request answered after the timeout", h_outbound_late, True),
          ("outbound request answered after the timeout, unexpected-answer handler raises", h_outbound_late_raising, True),
          ("two connections close themselves at once", h_self_closing_pairs, False),
+         ("connections close themselves with unsent output", h_self_closing_with_output, False),
          ("requests whose handler raises", h_handler_raises, True),
          ("threading application: requester gone before the handler finishes", h_threading_unroutable, False),
          ("threading application: handler outcomes", h_threading_outcomes, False),
@@ -541,6 +630,14 @@ def check(run):
                 run.violation("window-bound", {"kind": name, "N": n}, m["over"], what=f"a bounded window exceeds its bound: {m['over']}")
             if deaths:
                 run.violation("thread-death", {"kind": name, "N": n}, deaths, what=f"{name}: thread died: {deaths[0]}")
+            # every connection of the history has ended: whatever the node allocated PER CONNECTION is gone, for every N
+            left = {k: m["sizes"].get(k) for k in ("node.connections", "node.peer_sockets", "node.socket_peers", "node._half_ready_connections")
+                    if m["sizes"].get(k)}
+            workers = {k: v for k, v in m["threads"].items() if k.startswith("work_")}
+            if left or workers or m["open_sockets"]:
+                run.violation("released-when-closed", {"kind": name, "N": n}, {"tables": left, "worker_threads": workers, "open_sockets": m["open_sockets"]},
+                              "no connection table entry, no connection worker thread, no open peer socket",
+                              what=f"{name}: after every connection has ended the node still holds per-connection resources")
             if model and n <= 10:
                 cases.append(NS.coq_case(h.cfg, h.events, h.obs))
                 meta.append({"kind": name, "N": n, "n_events": len(h.events)})
